@@ -227,6 +227,27 @@ func (r *rewriter) post(c *astutil.Cursor) bool {
 		}
 		r.st.Send++
 		s := r.site(x)
+		// an operand that calls something is evaluated BEFORE the pre-send yield, so that a callee which
+		// blocks outside instrumented code (I/O) cannot wake up and reach the send without a yield
+		hasCall := false
+		ast.Inspect(x.Value, func(n ast.Node) bool {
+			if _, ok := n.(*ast.CallExpr); ok {
+				hasCall = true
+			}
+			if _, ok := n.(*ast.FuncLit); ok {
+				return false
+			}
+			return !hasCall
+		})
+		if hasCall {
+			if tv, ok := r.info.Types[x.Value]; ok && tv.Value == nil && !tv.IsNil() && tv.Type != nil {
+				if _, isTuple := tv.Type.(*types.Tuple); !isTuple {
+					t := tmp("v")
+					c.InsertBefore(&ast.AssignStmt{Lhs: []ast.Expr{t}, Tok: token.DEFINE, Rhs: []ast.Expr{x.Value}})
+					x.Value = t
+				}
+			}
+		}
 		c.InsertBefore(&ast.ExprStmt{X: r.call("Yield", s)})
 		c.InsertAfter(&ast.ExprStmt{X: r.call("Yield", &ast.BasicLit{Kind: token.STRING, Value: s.Value[:len(s.Value)-1] + `+"`})})
 	case *ast.GoStmt:
